@@ -163,6 +163,7 @@ def _run_history(name, row, hid, key, tag, specs, kwtwin, sample_shape=None, ops
 
     kwtwin: also run every op through the keyword form with the same key and log the twin observation.
     """
+    import contextlib
     import warnings
     import jax
     import jax.numpy as jnp
@@ -200,9 +201,11 @@ def _run_history(name, row, hid, key, tag, specs, kwtwin, sample_shape=None, ops
 
     def disc_id(bwd):
         try:
-            if not isinstance(bwd, Update):
+            if isinstance(bwd, Update):
+                bwd = bwd.constraint
+            if not isinstance(bwd, ChoiceMap):   # Trace.update returns the discard choice map itself
                 return -1
-            x = bwd.constraint.get_value()
+            x = bwd.get_value()
             if x is None:
                 return 0
             if isinstance(x, Mask):
@@ -269,8 +272,12 @@ def _run_history(name, row, hid, key, tag, specs, kwtwin, sample_shape=None, ops
             traces[True] = None          # the keyword-form chain is out of step until the next twinned start
         for form in use:
             args = args_of(a1, form)
+            # generate with a Mask constraint relies on lax.cond to unify its branches (a python float weight in one
+            # of them): always run it with compiled control flow, also when the worker runs with jax_disable_jit
+            ctx = jax.disable_jit(False) if (op in ("generate", "importance") and cons in ("maskT", "maskF")) \
+                else contextlib.nullcontext()
             try:
-                with warnings.catch_warnings():
+                with warnings.catch_warnings(), ctx:
                     warnings.simplefilter("ignore")
                     if op == "simulate":
                         tr = dist.simulate(key, args)
@@ -335,7 +342,7 @@ def _run_history(name, row, hid, key, tag, specs, kwtwin, sample_shape=None, ops
     step("assess")
     step("project", sel=1)
     step("project", sel=0)
-    if ops == "full":
+    if ops in ("full", "nomaskgen"):
         step("update", "none", a1=2)                                   # value kept, args a -> b
         step("update", "value", a1=2, vc=draw(2), changed=False)       # overwrite, args unchanged
         step("update", "maskT", a1=1, vc=draw(1))                      # overwrite through a true mask, b -> a
@@ -351,8 +358,9 @@ def _run_history(name, row, hid, key, tag, specs, kwtwin, sample_shape=None, ops
         step("update", "none", a1=1)
         step("generate", "none", a1=1, twin_ok=False)
         step("update", "none", a1=2)
-        step("importance", "maskT", a1=2, vc=draw(2), twin_ok=False)
-        step("generate", "maskF", a1=1, vc=draw(1), twin_ok=False)
+        if ops == "full":
+            step("importance", "maskT", a1=2, vc=draw(2), twin_ok=False)
+            step("generate", "maskF", a1=1, vc=draw(1), twin_ok=False)
         step("update", "value", a1=2, vc=draw(2))
     else:
         step("update", "none", a1=2)
@@ -366,7 +374,7 @@ def _plan(name, tier):
     row = TABLE[name]
     pts = row["pts"]
     plan = [("scalar", {1: ("pos", pts[0]), 2: ("pos", pts[1])}, True, None, "full"),
-            ("batched", {1: ("pos", pts[2]), 2: ("pos", pts[3])}, True, None, "full"),
+            ("batched", {1: ("pos", pts[2]), 2: ("pos", pts[3])}, True, None, "nomaskgen" if tier == "quick" else "full"),
             ("sampleshape", {1: ("pos", pts[0]), 2: ("pos", pts[1])}, False, (2,), "short")]
     if tier == "thorough":
         plan.append(("batchedsampleshape", {1: ("pos", pts[2]), 2: ("pos", pts[3])}, False, (2, 2), "full"))
@@ -375,7 +383,7 @@ def _plan(name, tier):
     return plan
 
 
-def _init_worker(cache_dir):
+def _init_worker(cache_dir, disable_jit):
     import jax
     try:   # compiled XLA executables are reused across workers and runs (keyed by the HLO text)
         jax.config.update("jax_compilation_cache_dir", cache_dir)
@@ -383,6 +391,11 @@ def _init_worker(cache_dir):
         jax.config.update("jax_persistent_cache_min_entry_size_bytes", -1)
     except Exception:
         pass
+    if disable_jit:
+        # quick tier: control flow inside TFP's samplers (rejection loops) and genjax's lax.cond is executed
+        # op by op instead of being compiled anew at every call (each such compile costs 0.3-2 s); the values
+        # computed are the same.  The thorough tier runs with compiled control flow.
+        jax.config.update("jax_disable_jit", True)
 
 
 def _history_events(task):
@@ -475,8 +488,22 @@ def run(prop_id, tier, seed, replay=None):
         for j in range(len(_plan(n, tier))):
             tasks.append((n, j, seed, tier, 100 * (sorted(TABLE).index(n) + 1) + j))
     tasks.sort(key=lambda t: (0 if any(h in t[0] for h in HEAVY) else 1, t[1]))
-    pool = mp.get_context("spawn").Pool(min(vlib.NCPU, len(tasks)), initializer=_init_worker, initargs=(cache,))
-    async_res = pool.map_async(_history_events, tasks, chunksize=1)
+    import concurrent.futures as cf
+    disable_jit = tier == "quick"
+    ex = cf.ProcessPoolExecutor(max_workers=min(vlib.NCPU, len(tasks)), mp_context=mp.get_context("spawn"),
+                                initializer=_init_worker, initargs=(cache, disable_jit))
+    futs = {ex.submit(_history_events, t): t for t in tasks}
+
+    def _abort():
+        for f in futs:
+            f.cancel()
+        for pr in list(getattr(ex, "_processes", {}).values()):
+            try:
+                pr.kill()
+            except Exception:
+                pass
+        ex.shutdown(wait=False, cancel_futures=True)
+
     # ---- role A (runs while the workers replay) ----------------------------
     cfgA = os.path.join(wd, "MC_DistGFI.cfg")
     with open(cfgA, "w") as f:
@@ -484,7 +511,7 @@ def run(prop_id, tier, seed, replay=None):
     try:
         a = vlib.run_tlc("DistGFI", cfgA, wd, tag="roleA", coverage=True, workers=2, timeout=900)
     except BaseException:
-        pool.terminate()
+        _abort()
         raise
     rep.add_tlc(a)
     cov = vlib.tlc_coverage(a)
@@ -494,12 +521,20 @@ def run(prop_id, tier, seed, replay=None):
                                           "AssessLaw", "Telescopes", "UndoRestores (action property)"])
     for act in ACTIONS:
         if acts.get(act, {}).get("total", 0) == 0:
-            pool.terminate()
+            _abort()
             raise vlib.MachineryError(f"role A: action {act} never fired (coverage {acts})")
+    results = []
     try:
-        results = async_res.get(timeout=3000)
-    finally:
-        pool.terminate()
+        for f in cf.as_completed(futs, timeout=1200 if tier == "quick" else 5400):
+            results.append(f.result())
+    except cf.TimeoutError:
+        pending = [futs[f][:2] for f in futs if not f.done()]
+        _abort()
+        raise vlib.MachineryError(f"driver timed out; unfinished histories: {pending[:20]}")
+    except Exception as e:   # BrokenProcessPool: a worker died (out of memory?)
+        _abort()
+        raise vlib.MachineryError(f"driver pool failed: {e!r}")
+    ex.shutdown(wait=True)
     results.sort(key=lambda r: (r["name"], r["tag"]))
     events = []
     walls = {}
@@ -575,5 +610,7 @@ def run(prop_id, tier, seed, replay=None):
         "scores/weights compared in fixed point 1/256 nat with tolerance 8 units + 2^-14 relative; events whose oracle density is "
         "not finite are counted (nonfinite_oracle_events) and only their run/value/support clauses are checked",
         "regenerate weights (new-old convention), project and discards are validated as auxiliary observations, not C24 clauses",
+        "quick tier runs the wrappers with jax_disable_jit (control flow executed op by op, same values); thorough tier uses "
+        "compiled control flow",
     ]
     return rep.finish()
